@@ -113,7 +113,11 @@ def _g_zero(c, k, mu, sigma_squared, team, rank):
     return 0.0
 
 
-GAMMAS = {"inv_k": _g_inv_k, "c100": _g_100, "rich": _g_rich, "zero": _g_zero}
+def _g_zero_first(c, k, mu, sigma_squared, team, rank):
+    return 0.0 if rank == 0 else 1.0 / k
+
+
+GAMMAS = {"inv_k": _g_inv_k, "c100": _g_100, "rich": _g_rich, "zero": _g_zero, "zero_first": _g_zero_first}
 
 
 class Cfg:
@@ -171,6 +175,7 @@ def config(name):
         "K9": lambda: Cfg("K9", scale=1e3),
         "K10": lambda: Cfg("K10", scale=1e-3),
         "KG0": lambda: Cfg("KG0", gamma="zero"),
+        "KG1": lambda: Cfg("KG1", gamma="zero_first"),  # 0 for the best-placed team(s), 1/k for the others
         "KK12": lambda: Cfg("KK12", kappa=1e-12),
     }[name]()
 
@@ -338,6 +343,16 @@ def pred_games(space, cfg):
         yield from games_T(n, al, cfg)
         return
     if space == "GP":
+        # ordinal-equal but different ratings (mu = 3 sigma): value equality and ordinal equality must not be confused anywhere
+        oe = [(30.0, 10.0), (15.0, 5.0), (24.0, 8.0), (25.0, 25.0 / 3.0), (0.0, 0.0)]
+        sc = cfg.beta / BETA0
+        oe = [(m * sc, s * sc) for m, s in oe]
+        for vals in itertools.product(oe, repeat=3):
+            yield [[v] for v in vals]
+        for a in oe:
+            for b_ in oe:
+                yield [[a], [b_]]
+                yield [[a, b_], [b_, a]]
         yield from games_PK(cfg)
         yield from games_P3(cfg)
         yield from games_dev(8, cfg, size=8)
